@@ -25,6 +25,9 @@ def run(prop, tier, replay=None):
             if C.tlc_violated(mc):
                 raise C.Infra("Deadline design check violated:\n" + mc["out"][-2000:])
             design = dict(states=mc["distinct"], transitions=mc["generated"])
+            ng = C.tlc(scratch, "Deadline.tla", "Deadline_Neg_Detach.cfg", workers=2, timeout=600, tag="dlneg")
+            if not C.tlc_violated(ng):
+                raise C.Infra("vacuity guard Deadline_Neg_Detach found no violation")
             g = C.tlc(scratch, "Deadline_Gen.tla", "Deadline_Gen.cfg", workers=1, timeout=600, tag="dlgen")
             shapes = list(C.printed(g["out"], "SHAPE"))
             scheds = list(C.printed(g["out"], "SCHED"))
@@ -114,11 +117,11 @@ def run(prop, tier, replay=None):
             again = collections.Counter((f[0], f[2]) for f in rr[0]["failed"])
             for case, formula, ev in retry:
                 if again[(case, formula)] >= 2:
-                    key = (formula, ev["shape"], ev["point"], ev["client"], bool(ev.get("gzip")))
+                    key = (formula, ev["shape"], ev["point"], ev["client"], bool(ev.get("gzip")), ev.get("via", "local"))
                     viol[key] = dict(property=prop, formula=formula, seed=seed, cases=[by_id[case]], observed=ev, more=0,
                                      signature=dict(module="Deadline", formula=formula, shape=ev["shape"], point=ev["point"], client=ev["client"]),
                                      what="%s: %s handler %s, client %s%s -> ctx done %s, released %s (error %s, io.EOF %s) within 5 s; reproduced twice" % (
-                                         formula, ev["shape"], ev["point"], ev["client"], " (gzip upload breaks off)" if ev.get("gzip") else "",
+                                         formula, ev["shape"], ev["point"], ev["client"], (" (gzip upload breaks off)" if ev.get("gzip") else "") + (" (handler on a backend behind RegisterConn)" if ev.get("via") == "proxied" else ""),
                                          ev["ctxdone"], ev["released"], ev["relerr"], ev.get("releof")))
                 else:
                     unreproduced += 1
